@@ -83,7 +83,7 @@ vars == <<kind, cells, cont, pc, schema>>
 FieldOf == [name |-> NA, pd |-> kind, cells |-> cells, idx |-> [i \in 1..Len(cells) |-> iv(i - 1)]]
 
 Init == /\ kind \in Kinds /\ cells \in Fields(kind)
-        /\ cont \in {"column", "index", "series", "multiindex"}
+        /\ cont \in {"column", "index", "series", "multiindex", "sibling"}      \* "sibling": a column next to one with a null in the first row
                 \cup (IF kind = "int64" THEN {"nocols", "duplabels", "mi_dupnames"} ELSE {})
                 \* frame shapes: no column at all / a repeated column label / a MultiIndex whose two levels share one name
         /\ pc = "data" /\ schema = <<>>
